@@ -88,11 +88,15 @@ def run_cell(cell, seed):
     for kind in ['impulse', 'randn', rnd.choice(['dynrange', 'const', 'alt', 'outlier', 'ramp'])]:
         case = {'cell': cell, 'input': kind}
         x = c03.impulse_input(cell, seed) if kind == 'impulse' else util.make_input(kind, [cell['N'], cell['C']] + sp, seed)
-        ok, pyr = util.call_lib(fwd, x)
+        # the structured input class is sent through both modules in eval() mode (inference use)
+        call = util.call_lib if kind in ('impulse', 'randn') else util.call_lib_eval
+        if call is util.call_lib_eval:
+            case['modules'] = 'eval() mode'
+        ok, pyr = call(fwd, x)
         if not ok:
             out.append(res(VIOLATED, case, 'M-RT', 'forward raised %r' % (pyr,)))
             continue
-        ok, y = util.call_lib(inv, pyr)
+        ok, y = call(inv, pyr)
         if not ok:
             out.append(res(VIOLATED, case, 'M-RT', 'inverse raised %r on the forward output' % (y,)))
             continue
@@ -100,7 +104,9 @@ def run_cell(cell, seed):
         if list(y.shape) != want:
             out.append(res(VIOLATED, case, 'M-SHAPE', 'reconstruction shape %s, expected %s' % (list(y.shape), want)))
             continue
-        tol = 1e-10 * G * max(float(x.abs().max()), 1e-300)
+        # measured: the float64 round-trip error stays below 1.2e-17 * G * max|x| over several thousand cells;
+        # 1e-12 leaves a factor 1e3 for rounding and still sees a relative defect of 1e-9
+        tol = 1e-12 * G * max(float(x.abs().max()), 1e-300)
         okc, detail, ratio = util.compare('inverse(forward(x))[:H,:W]', y[..., :H, :W], util.np64(x), tol)
         out.append(res(HELD, case, 'M-RT', ratio=ratio) if okc else res(VIOLATED, case, 'M-RT', detail, ratio=ratio))
     # the same pair of modules after the usual nn.Module precision conversion (built in float32, .double()
